@@ -57,8 +57,15 @@ def _through_the_wire(md):
   return metadata_util.from_key_value_list(spec2.metadata)
 
 
+INF_EVERY = [0]      # > 0: every k-th evaluation reports an infinite loss (a diverged run)
+_EVALS = [0]
+
+
 def _objective(params):
   d = params.as_dict()
+  _EVALS[0] += 1
+  if INF_EVERY[0] and _EVALS[0] % INF_EVERY[0] == 1:
+    return {'m': float(d['x']), 'n': float('inf')}
   v = float(d['x']) - 0.5 * float(d['y']) * float(d['y'])
   if 'c' in d:
     v += {'a': 0.0, 'b': 0.25, 'c': -0.5}[str(d['c'])] + 0.01 * float(d['d'])
@@ -158,14 +165,53 @@ def eagle_restart_quick(seed: int, batch: int, pattern: int, m: int) -> bool:
 
 def nsga2_restart(space: int, seed: int, batch: int, pattern: int, m: int) -> bool:
   """
-  pre: 0 <= space <= 1 and 0 <= seed <= 1 and 1 <= batch <= 3 and 0 <= pattern <= 3 and 0 <= m <= 5
+  pre: 0 <= space <= 2 and 0 <= seed <= 1 and 1 <= batch <= 3 and 0 <= pattern <= 3 and 0 <= m <= 5
   post: _
   """
-  space, seed = conc(space, 0, 1), conc(seed, 0, 1)
+  space, seed = conc(space, 0, 2), conc(seed, 0, 1)
   batch, pattern, m = [2, 3, 5][conc(batch, 1, 3) - 1], conc(pattern, 0, 3), conc(m, 0, 5)
   mask = [0xFF, 0x00, 0xAA, 0x10, 0xE0, 0x81][m]
-  return _run(['nsga2_mixed', 'nsga2_two'][space], seed, batch, pattern, mask,
-              (space, seed, [2, 3, 5].index(batch) + 1, pattern, m))
+  with NoTracing():
+    INF_EVERY[0], _EVALS[0] = (4 if space == 2 else 0), 0       # space 2: the two-parameter space with diverged runs
+  try:
+    return _run(['nsga2_mixed', 'nsga2_two', 'nsga2_two'][space], seed, batch, pattern, mask,
+                (space, seed, [2, 3, 5].index(batch) + 1, pattern, m))
+  finally:
+    with NoTracing():
+      INF_EVERY[0] = 0
+
+
+def eagle_long_restart(seed: int, period: int) -> bool:
+  """
+  pre: 0 <= seed <= 1 and 0 <= period <= 2
+  post: _
+  """
+  seed, period = conc(seed, 0, 1), [1, 5, 97][conc(period, 0, 2)]
+  args = (seed, [1, 5, 97].index(period))
+  with NoTracing():
+    # a long sequential study (flies get removed from the pool after many unsuccessful moves): live vs. restarted every
+    # `period`-th step, on a 2-parameter problem
+    problem = _problem('nsga2_two')
+    problem.metric_information = vz.MetricsConfig([vz.MetricInformation(name='m', goal=vz.ObjectiveMetricGoal.MAXIMIZE)])
+    live, twin = _make('eagle', problem, seed), _make('eagle', problem, seed)
+    ok, where = True, None
+    for step in range(1000):
+      if step % period == 0 and step:
+        state = _through_the_wire(twin.dump())
+        twin = _make('eagle', problem, seed)
+        twin.load(state)
+      a, b = live.suggest(1), twin.suggest(1)
+      if _params_key(a) != _params_key(b):
+        ok, where = False, ['suggest differs at step', step]
+        break
+      t = a[0].to_trial(step + 1)
+      d = t.parameters.as_dict()
+      t.complete(vz.Measurement({'m': -(float(d['x']) - 0.3) ** 2 - (float(d['y']) - 0.4) ** 2}))
+      import copy
+      for des in (live, twin):
+        des.update(vza.CompletedTrials([copy.deepcopy(t)]), vza.ActiveTrials())
+  reach('eagle_long')
+  return finish(ok, args, obs=where)
 
 
 # ---- the same through the policy layer that persists and restores designer state and the incorporated-trial cache -----
